@@ -189,9 +189,10 @@ def pkSwap (opts : List Opt) : List Opt :=
     | none => opts
     | some i => (init.set i last) ++ [init[i]!]
 
-/-- `Table.AddColumn`, table.go:53.  `mysql`: the merge branch assigns `MysqlType` only, so for the other
-    dialects (whose columns carry `PgType` / `LiteType`) the type of an existing live column is left unchanged. -/
-def addColumn (t : Table) (col : Column) (mysql : Bool := true) : M Table :=
+/-- `Table.AddColumn`, table.go:53.  `mysql`: the merge branch assigns `MysqlType` unconditionally; `pg`: it takes over
+    `PgType` when the incoming column carries one (ALTER COLUMN … TYPE; fix FX-pg-alter-column-type); the type of a
+    sqlite column (`LiteType`) is left unchanged. -/
+def addColumn (t : Table) (col : Column) (mysql : Bool := true) (pg : Bool := false) : M Table :=
   match t.colIdx.get? col.name with
   | none =>
     let t' := { t with cols := t.cols ++ [col], colIdx := t.colIdx.set col.name t.cols.length }
@@ -205,7 +206,7 @@ def addColumn (t : Table) (col : Column) (mysql : Bool := true) : M Table :=
       -- MySQL MODIFY COLUMN (a `modify` column carrying a MySQL type) replaces the options
       let base := if col.action == .modify && mysql && col.cur.typ.isSome then [] else c.cur.opts
       let opts := pkSwap (base ++ col.cur.opts)
-      pure { t with cols := t.cols.set id { c with cur := { c.cur with opts := opts, typ := if mysql then col.cur.typ else c.cur.typ } } }
+      pure { t with cols := t.cols.set id { c with cur := { c.cur with opts := opts, typ := if mysql then col.cur.typ else if pg then col.cur.typ.orElse (fun _ => c.cur.typ) else c.cur.typ } } }
 
 /-- `forgetIndex(id)`: delete the index record and its map entry, shift the entries behind it -/
 def forgetIndex (t : Table) (id : Nat) : M Table := do
@@ -360,9 +361,9 @@ def onTable (m : Migration) (site : String) (id : Nat) (f : Table → M Table) :
   let t' ← f t
   pure { m with tables := m.tables.set id t' }
 
-def addColumn (m : Migration) (tb : String) (col : Column) (mysql : Bool := true) : M Migration := do
+def addColumn (m : Migration) (tb : String) (col : Column) (mysql : Bool := true) (pg : Bool := false) : M Migration := do
   let (m', id) ← m.ensureTable (m.resolve tb)
-  m'.onTable "Migration.AddColumn" id (·.addColumn col mysql)
+  m'.onTable "Migration.AddColumn" id (·.addColumn col mysql pg)
 
 def setColumnPosition (m : Migration) (tb : String) (pos : Pos) : M Migration :=
   match m.tblIdx.get? (m.resolve tb) with
